@@ -146,3 +146,87 @@ def def_nodes(cfg, name):
 def expect(cond, msg):
     if not cond:
         raise AnalysisError(msg)
+
+
+# ----------------------------------------------------------------------
+# boolean structure of an expression over opaque atoms
+
+def bool_atoms(expr):
+    """Atoms (maximal non-boolean sub-expressions) of a boolean expression."""
+    out = []
+
+    def rec(e):
+        if isinstance(e, ast.BoolOp):
+            for v in e.values:
+                rec(v)
+        elif isinstance(e, ast.UnaryOp) and isinstance(e.op, ast.Not):
+            rec(e.operand)
+        else:
+            t = norm(e)
+            if t not in out:
+                out.append(t)
+
+    rec(expr)
+    return out
+
+
+def bool_eval(expr, assignment):
+    """Evaluate boolean expression with atoms valued by assignment {norm text: bool}."""
+    if isinstance(expr, ast.BoolOp):
+        vals = [bool_eval(v, assignment) for v in expr.values]
+        return all(vals) if isinstance(expr.op, ast.And) else any(vals)
+    if isinstance(expr, ast.UnaryOp) and isinstance(expr.op, ast.Not):
+        return not bool_eval(expr.operand, assignment)
+    return assignment[norm(expr)]
+
+
+def mentions(expr, dotted_name):
+    for n in ast.walk(expr):
+        if isinstance(n, (ast.Attribute, ast.Name)) and dotted(n) == dotted_name:
+            return True
+    return False
+
+
+def mentions_attr(expr, attr):
+    for n in ast.walk(expr):
+        if isinstance(n, ast.Attribute) and n.attr == attr:
+            return True
+    return False
+
+
+def guards_of(cfg, node):
+    """[(test expr, polarity)] dominating node."""
+    return [(t, pol) for (t, pol, _) in cfg.guards(node)]
+
+
+def guard_holds(cfg, node, pred, polarity):
+    """Some dominating guard satisfies pred(expr) with the given polarity."""
+    for (t, pol) in guards_of(cfg, node):
+        if pol == polarity and pred(t):
+            return True
+    return False
+
+
+_CMP = {ast.Lt: lambda a, b: a < b, ast.LtE: lambda a, b: a <= b, ast.Gt: lambda a, b: a > b,
+        ast.GtE: lambda a, b: a >= b, ast.Eq: lambda a, b: a == b, ast.NotEq: lambda a, b: a != b}
+
+
+def eval_compare_on(expr, left_pred, right_pred, a, b):
+    """Evaluate comparison `expr` (single op) whose sides are recognised by the
+    predicates, with the left quantity = a and right quantity = b. Returns
+    bool or None if not recognised."""
+    if not (isinstance(expr, ast.Compare) and len(expr.ops) == 1):
+        return None
+    op = type(expr.ops[0])
+    if op not in _CMP:
+        return None
+    l, r = expr.left, expr.comparators[0]
+    if left_pred(l) and right_pred(r):
+        return _CMP[op](a, b)
+    if left_pred(r) and right_pred(l):
+        return _CMP[op](b, a)
+    return None
+
+
+def stmts_between_same_block(func, a_stmt, b_stmt):
+    return None
